@@ -454,6 +454,12 @@ pub fn bnd_c09() {
             let h = html.clone();
             let r = panic::catch_unwind(move || config::rich().lines_from_read(h.as_bytes(), width));
             let lines = match r { Ok(Ok(l)) => l, Ok(Err(_)) => continue, Err(_) => { rep.found(&input, "panic"); continue; } };
+            // concatenating the pieces of each line gives the string output of the same configuration
+            { let h2 = html.clone(); if let Ok(Ok(sout)) = panic::catch_unwind(move || config::rich().string_from_read(h2.as_bytes(), width)) {
+                let joined: Vec<String> = lines.iter().map(|l| l.tagged_strings().map(|ts| ts.s.as_str()).collect::<String>()).collect();
+                let want_lines: Vec<&str> = sout.lines().collect();
+                if joined.iter().map(|s| s.trim_end()).collect::<Vec<_>>() != want_lines.iter().map(|s| s.trim_end()).collect::<Vec<_>>() { rep.found(&input, &format!("the pieces of the rich lines give {:?}, the string output is {:?}", joined, want_lines)); }
+            } }
             for (tok, want) in [("pre", vec![]), ("aa", inside.clone()), ("bb", inside.clone()), ("cc", inside.clone()), ("post", vec![])] {
                 let mut seen = false;
                 for l in &lines { for ts in l.tagged_strings() {
@@ -1227,6 +1233,53 @@ pub fn bnd_mut() {
             }
         }}
     }
+    rep.finish();
+}
+
+// C08 over a catalogue of link placements (process_dom_node: which <a> becomes a Link node; where references and the list end up)
+pub fn c08_elements() {
+    let docs: Vec<(&str, Vec<&str>)> = vec![
+        ("<pre>p <a href=\"u1\">L1</a> q</pre>", vec!["u1"]),
+        ("<h1><a href=\"u1\">L1</a></h1><h3>x <a href=\"u2\">L2</a></h3>", vec!["u1", "u2"]),
+        ("<p><a href=\"u1\"><img src=\"s\" alt=\"L1\"></a> t</p>", vec!["u1"]),
+        ("<a href=\"u1\"><div>L1</div></a><a href=\"u2\"><p>L2</p><p>more</p></a>", vec!["u1", "u2"]),
+        ("<p><a>L0</a> <a href=\"u1\">L1</a> <a name=\"n\">L9</a></p>", vec!["u1"]),
+        ("<ul><li><a href=\"u1\">L1</a><ul><li><a href=\"u2\">L2</a></li></ul></li></ul>", vec!["u1", "u2"]),
+        ("<table><tr><td colspan=2><a href=\"u1\">L1</a></td></tr><tr><td><a href=\"u2\">L2</a></td><td><a href=\"u3\">L3</a></td></tr></table>", vec!["u1", "u2", "u3"]),
+        ("<dl><dt><a href=\"u1\">L1</a></dt><dd><a href=\"u2\">L2</a></dd></dl>", vec!["u1", "u2"]),
+        ("<p><a href=\"u1\">L1</a><a href=\"u2\">L2</a></p>", vec!["u1", "u2"]),
+        ("<p><em><a href=\"u1\">L1</a></em> <a href=\"u2\"><strong>L2</strong></a> <s><a href=\"u3\">L3</a></s></p>", vec!["u1", "u2", "u3"]),
+        ("<blockquote><blockquote><a href=\"u1\">L1</a></blockquote></blockquote>", vec!["u1"]),
+        ("<p><a href=\"u1\"></a><a href=\"u2\"> </a><a href=\"u3\"><span></span></a><a href=\"u4\">L1</a></p>", vec!["u4"]),
+        ("<p><a href=\"u1\">L1</a></p><table><tr><td><table><tr><td><a href=\"u2\">L2</a></td></tr></table></td></tr></table><p><a href=\"u3\">L3</a></p>", vec!["u1", "u2", "u3"]),
+        ("<p>x<sup><a href=\"u1\">L1</a></sup> <code><a href=\"u2\">L2</a></code></p>", vec!["u1", "u2"]),
+        ("<details><summary><a href=\"u1\">L1</a></summary><a href=\"u2\">L2</a></details>", vec!["u1", "u2"]),
+        ("<ol><li><a href=\"u1\">L1</a></li><li>x</li><li><a href=\"u2\">L2</a></li></ol>", vec!["u1", "u2"]),
+        ("<table><thead><tr><th><a href=\"u1\">L1</a></th></tr></thead><tfoot><tr><td><a href=\"u2\">L2</a></td></tr></tfoot></table>", vec!["u1", "u2"]),
+        ("<div><a href=\"u1\">L1</a><br><a href=\"u2\">L2</a><hr><a href=\"u3\">L3</a></div>", vec!["u1", "u2", "u3"]),
+    ];
+    let mut rep = Report::new("c08_elements", &format!("{} documents with links in pre, headings, around images and blocks, without href, in nested lists, spanning cells, definition lists, adjacent, inside inline markup,         nested quotes, content-less, nested tables, sup/code, details, ordered lists, table head/foot; widths 30, 60; plain decorator with footnotes: references are [1]..[n] in document order, each right after its link text,         and the list at the end is [k]: target_k; without footnotes neither appears", docs.len()));
+    for (html, hrefs) in &docs { for width in [30usize, 60] { for on in [true, false] {
+        let input = format!("width={} footnotes={} html={}", width, on, html);
+        rep.case(&input);
+        let h = html.to_string();
+        let out = match panic::catch_unwind(move || config::plain().unicode_strikeout(false).link_footnotes(on).string_from_read(h.as_bytes(), width)) { Ok(Ok(s)) => s, Ok(Err(_)) => continue, Err(_) => { rep.found(&input, "panic"); continue; } };
+        let ms = markers(&out);
+        let heads: Vec<(usize, String)> = out.lines().filter_map(|l| { let l = l.trim_end(); if l.starts_with('[') { if let Some(p) = l.find("]:") { if let Ok(k) = l[1..p].parse::<usize>() { return Some((k, l[p + 2..].trim().to_string())); } } } None }).collect();
+        if !on { if !ms.is_empty() || !heads.is_empty() { rep.found(&input, &format!("footnotes disabled but output has references/list: {:?}", out)); } continue; }
+        let n = hrefs.len();
+        let want: Vec<usize> = (1..=n).collect();
+        if ms != want { rep.found(&input, &format!("reference markers {:?}, expected {:?}; output {:?}", ms, want, out)); continue; }
+        let flat: String = out.chars().filter(|c| !c.is_whitespace()).collect();
+        for k in 1..=n {
+            let (pl, pm) = (flat.find(&format!("L{}", k)), flat.find(&format!("[{}]", k)));
+            let next = if k < n { flat.find(&format!("L{}", k + 1)) } else { flat.find("[1]:") };
+            let ok = match (pl, pm) { (Some(a), Some(b)) => a < b && next.map(|c| b < c || html.contains("<table")).unwrap_or(true), _ => false };
+            if !ok { rep.found(&input, &format!("link text L{} is not followed by its own number before the next link; output {:?}", k, out)); break; }
+        }
+        let want_heads: Vec<(usize, String)> = (1..=n).map(|k| (k, hrefs[k - 1].to_string())).collect();
+        if heads != want_heads { rep.found(&input, &format!("footnote list {:?}, expected {:?}; output {:?}", heads, want_heads, out)); }
+    }}}
     rep.finish();
 }
 
